@@ -5,6 +5,10 @@
    parse: whitespace put in front of a document (no BOM / declaration) leaves the outcome unchanged -- an Ok result is
    the same document with shifted offsets, an Err has the same variant and payload and is reported at the same place of
    the document (offset + k), i.e. k spaces move the column of a row-1 error by k, k line breaks move the row by k.
+   The same for whitespace inserted at any insertion point of the prolog before a DOCTYPE (after the BOM / XML
+   declaration, after each comment or PI of the first Misc run; insertion_point is defined operationally and is
+   decidable by insertion_point_b): parse_err_shift_mid_partial, parse_ok_shift_mid_partial and the spaces / lines
+   corollaries (an error on the insertion point's row moves by k columns; k line breaks move the row by k).
    Statements are pinned here (copied verbatim from the proof files by tools/pin_props.py);
    each is re-proved by `exact` and followed by Print Assumptions. *)
 From Coq Require Import Ascii String.
@@ -12,7 +16,7 @@ From Coq Require Import List NArith Bool PeanoNat Sorted.
 Import ListNotations.
 From RX Require Import Generated.
 From RX.Model Require Import Base CharClass Stream Tokenizer Doc Builder Parse Api.
-From RX.Proofs Require Import PositionProofs ErrPosStream ErrPosTokenizer ErrPosParse ErrPayload RangeShiftBuilder ErrShiftBase ErrShiftFinal.
+From RX.Proofs Require Import PositionProofs ErrPosStream ErrPosTokenizer ErrPosParse ErrPayload RangeShiftBuilder ErrShiftBase ErrShiftFinal ErrShiftMidCore ErrShiftMidFinal.
 Open Scope N_scope.
 
 (* ---- Proofs/PositionProofs.v ---- *)
@@ -117,8 +121,55 @@ Theorem C14_parse_err_shift_lines :
 Proof. exact parse_err_shift_lines. Qed.
 Print Assumptions C14_parse_err_shift_lines.
 
+(* ---- Proofs/ErrShiftMidFinal.v ---- *)
+Theorem C14_parse_err_shift_mid_partial :
+  forall pre ws post opt e,
+  forallb byte_is_space ws = true -> valid_utf8_b post = true ->
+  insertion_point pre post opt ->
+  parse (pre ++ post) opt = Err e ->
+  exists e', parse (pre ++ ws ++ post) opt = Err e' /\
+    err_kind e = err_kind e' /\
+    (has_pos e = false -> e' = e) /\
+    (has_pos e = true -> exists off, blen pre <= off /\ off <= tlen (pre ++ post) /\
+        is_boundary (pre ++ post) off = true /\
+        text_pos_at (pre ++ post) off = Ok (error_pos e) /\
+        text_pos_at (pre ++ ws ++ post) (off + blen ws) = Ok (error_pos e')).
+Proof. exact parse_err_shift_mid_partial. Qed.
+Print Assumptions C14_parse_err_shift_mid_partial.
+
+Theorem C14_parse_ok_shift_mid_partial :
+  forall pre ws post opt d,
+  forallb byte_is_space ws = true -> valid_utf8_b post = true ->
+  insertion_point pre post opt ->
+  parse (pre ++ post) opt = Ok d ->
+  parse (pre ++ ws ++ post) opt = Ok (mid_doc (blen pre) (blen ws) d).
+Proof. exact parse_ok_shift_mid_partial. Qed.
+Print Assumptions C14_parse_ok_shift_mid_partial.
+
+Theorem C14_parse_err_shift_mid_spaces :
+  forall k pre post opt e,
+  valid_utf8_b post = true -> insertion_point pre post opt ->
+  parse (pre ++ post) opt = Err e -> has_pos e = true ->
+  exists e' rP cP, parse (pre ++ repeat 32 k ++ post) opt = Err e' /\ err_kind e = err_kind e' /\
+    text_pos_at (pre ++ post) (blen pre) = Ok (rP, cP) /\
+    error_pos e' = (fst (error_pos e),
+                    if fst (error_pos e) =? rP then N.of_nat k + snd (error_pos e) else snd (error_pos e)).
+Proof. exact parse_err_shift_mid_spaces. Qed.
+Print Assumptions C14_parse_err_shift_mid_spaces.
+
+Theorem C14_parse_err_shift_mid_lines :
+  forall k pre post opt e, (0 < k)%nat ->
+  valid_utf8_b post = true -> insertion_point pre post opt ->
+  parse (pre ++ post) opt = Err e -> has_pos e = true ->
+  exists e' rP cP, parse (pre ++ repeat 10 k ++ post) opt = Err e' /\ err_kind e = err_kind e' /\
+    text_pos_at (pre ++ post) (blen pre) = Ok (rP, cP) /\
+    error_pos e' = (N.of_nat k + fst (error_pos e),
+                    if fst (error_pos e) =? rP then snd (error_pos e) - (cP - 1) else snd (error_pos e)).
+Proof. exact parse_err_shift_mid_lines. Qed.
+Print Assumptions C14_parse_err_shift_mid_lines.
+
 (* ---- Proofs/ErrPosTokenizer.v ---- *)
-Module G2.
+Module G3.
 Local Notation token := Tokenizer.token.
 Theorem C14_tokenizer_errors_positioned :
   forall text (C : Type) (ev : token -> C -> res C) dtd c e,
@@ -127,7 +178,7 @@ Theorem C14_tokenizer_errors_positioned :
 Proof. exact tokenizer_errors_positioned. Qed.
 Print Assumptions C14_tokenizer_errors_positioned.
 
-End G2.
+End G3.
 
 (* ---- Proofs/ErrPosParse.v ---- *)
 Theorem C14_token_errors_positioned :
